@@ -331,7 +331,8 @@ def c11(sc, V):
         if eff or not same:
             sig = "refused-request-had-effect"
             p = s.props()
-            if s.cmd() == "set" and isinstance(p.get("options"), dict) and len(p["options"]) >= 1 and \
+            # F4 is about a *later* option failing after earlier ones were applied: it needs at least two options
+            if s.cmd() == "set" and isinstance(p.get("options"), dict) and len(p["options"]) >= 2 and \
                     all(l[0] == "ev" and l[2] == "updated" for l in eff):
                 sig = "set-partially-applied"
             f.append({"sig": sig, "step": s.n, "msg": "%s was refused (errno %s) but changed the daemon" % (s.cmd(), errs[0][4])})
